@@ -175,7 +175,7 @@ def replay(r):
     """native replay: build the concrete skeleton with the real pyhf, evaluate at seeded random parameters inside and
     outside |alpha| <= 1 and compare with the float oracle"""
     meta = r.get("meta") or {}
-    if meta.get("op") and meta.get("backend"):
+    if (meta.get("op") or meta.get("lifecycle")) and meta.get("backend"):
         from .BK_backend_ops import replay_backend_op
         return replay_backend_op(r)
     name = meta.get("skeleton")
